@@ -21,6 +21,16 @@ def main():
     if st:
         sys.exit("refusing: /repo is not clean:\n" + st)
     head = sh(["git", "-C", REPO, "rev-parse", "--short", "HEAD"]).stdout.strip()
+    open("/tmp/repo-busy", "w").write("seeded matrix\n")   # others wait for this file to go away before touching /repo
+    try:
+        run_all(ids, tier, head)
+    finally:
+        if os.path.exists("/tmp/repo-busy"):
+            os.remove("/tmp/repo-busy")
+    print("done; re-run the affected checks on the unchanged tree to rewrite evidence/")
+
+
+def run_all(ids, tier, head):
     for mid in ids:
         d = os.path.join(VERIF, "seeded", mid)
         pid = mid.split("-")[0]
@@ -59,7 +69,6 @@ def main():
         json.dump(meta, open(mp, "w"), indent=1)
         print("%s  %s  detected=%s concrete=%s  %.0fs  %s" % (mid, tier, res["detected"], res["concrete_failing_input"], res["wall_s"], (why or [""])[0][:110]))
         sys.stdout.flush()
-    # leave the evidence files as the unchanged tree produces them
-    print("done; re-run the affected checks on the unchanged tree to rewrite evidence/")
+
 
 main()
